@@ -38,6 +38,9 @@ type run struct {
 	typed   bool // message follows the aircraftlib schema (Regression / Bag root)
 	typeID  uint64
 	noAlias bool // delivery path copies the bytes (decoder buffers): skip the address check
+	nfired  int  // storage faults applied
+	negLen  bool
+	huge    bool // the walker met a list with more than 65536 elements
 }
 
 // exact returns a copy of b whose capacity equals its length, so that any
@@ -199,11 +202,44 @@ func (r *run) smashWord(nsegs int, segWords int, at int) uint64 {
 
 func (r *run) corrupt(segs [][]byte) {
 	s := r.s
+	// targeted fault: overwrite the tag word of a composite list (found with the reference
+	// validator on the pristine bytes) with boundary values - zero-size elements, negative or
+	// huge element counts
+	if rep, err := wire.Validate(segs); err == nil && s.Chance("tag-smash", 1, 4) {
+		var tags []wire.Extent
+		for _, e := range rep.Extents {
+			if e.What == "composite" {
+				tags = append(tags, e)
+			}
+		}
+		if len(tags) > 0 {
+			e := tags[s.Choice("tag-which", len(tags))]
+			cnts := []int32{-1, -2, -(1 << 29), 0, 1, int32(e.Words), 1<<29 - 1}
+			szs := []uint64{0, 0, 1, 0xffff}
+			c := cnts[s.Choice("tag-count", len(cnts))]
+			w := uint64(uint32(c)<<2) | szs[s.Choice("tag-dw", len(szs))]<<32 | szs[s.Choice("tag-pw", len(szs))]<<48
+			binary.LittleEndian.PutUint64(segs[e.Seg][8*e.Off:], w)
+			s.Fault("tag_smash")
+			r.nfired++
+			if s.Chance("tag-and-ptr", 1, 2) {
+				// make the list pointer agree with a zero-size body so that the tag is actually consulted
+				for si := range segs {
+					for at := 0; at+8 <= len(segs[si]); at += 8 {
+						v := binary.LittleEndian.Uint64(segs[si][at:])
+						if v&3 == 1 && (v>>32)&7 == 7 && si == e.Seg && at/8+1+int(int32(uint32(v))>>2) == e.Off {
+							binary.LittleEndian.PutUint64(segs[si][at:], v&(1<<35-1))
+						}
+					}
+				}
+			}
+		}
+	}
 	nf := s.Choice("nfaults", 5)
 	for f := 0; f < nf; f++ {
 		if len(segs) == 0 {
 			return
 		}
+		r.nfired++
 		si := s.Choice("f-seg", len(segs))
 		w := words(segs[si])
 		switch k := s.Choice("f-kind", 8); {
@@ -450,6 +486,12 @@ func (r *run) walkList(l capnp.List, depth int) {
 	n := l.Len()
 	if n < 0 {
 		r.s.Probe("list_with_negative_length")
+		r.negLen = true
+	}
+	if n > 1<<16 {
+		// Legitimately expensive under a traversal limit that admits it (a zero-sized
+		// element is charged one word): the recursive consumers are not run on such messages.
+		r.huge = true
 	}
 	for _, i := range r.elemIdx(n) {
 		if !r.spend() {
@@ -485,6 +527,16 @@ func (r *run) walkList(l capnp.List, depth int) {
 // consumers: the recursive read-side operations on the root.
 func (r *run) consumers(msg *capnp.Message, pristine *capnp.Message) {
 	s := r.s
+	if r.huge && (msg.TraverseLimit == 0 || msg.TraverseLimit > 1<<20) {
+		s.Probe("consumers_skipped_huge_list")
+		return
+	}
+	// a fresh budget for the consumer (the walker may have used the message's up)
+	if msg.TraverseLimit != 0 {
+		msg.ResetReadLimit(msg.TraverseLimit)
+	} else {
+		msg.ResetReadLimit(64 << 20)
+	}
 	root, err := msg.Root()
 	if err != nil {
 		return
@@ -640,7 +692,10 @@ func (r *run) c01(concurrent bool, k int) {
 	} else {
 		r.budget = 1200
 	}
-	heavy := msg.TraverseLimit != 0 && msg.TraverseLimit <= 1<<20
+	// The recursive consumers run where their work is certainly small: a traversal limit of at
+	// most 1 MiB, or at most one storage fault (a single rewired pointer of a tree cannot
+	// produce a DAG blow-up; the depth limit bounds the walk round the one possible cycle).
+	heavy := (msg.TraverseLimit != 0 && msg.TraverseLimit <= 1<<20) || r.nfired <= 1
 	if !concurrent {
 		for i := 0; i < k && !s.Failed(); i++ {
 			r.calls = 0
